@@ -36,6 +36,7 @@ SweepVariants(n, o) == {JumpC(n, o), ZeroC(n, o), UnitC(n, o, n, o + 1), UnitC(n
 SweepOperands ==
   UNION {UNION {{SplOn(SupWhole(SweepGrid(n)), o, c) : c \in SweepVariants(n, o)}
                 \cup (IF n >= 2 THEN {SplOn(Sup(SweepGrid(n), 1, n + 1), o, JumpC(n - 1, o))} ELSE {}) : o \in {0, 2}} : n \in SweepSizes}
+SweepSeq == SetToSeq(SweepOperands)
 SweepPartners(a) ==
   LET g == a.g
       n == Len(g) - 1
@@ -96,11 +97,13 @@ CasesFor(a) ==
   \cup NewCases(a)
 
 Init == \/ \E a \in FirstOperands : st = [ph |-> 0, a |-> a, sw |-> 0]
-        \/ \E a \in SweepOperands : st = [ph |-> 0, a |-> a, sw |-> 1]
+        \/ \E i \in DOMAIN SweepSeq : st = [ph |-> 0, a |-> SweepSeq[i], sw |-> i]
 Next == /\ st.ph = 0
-        /\ \E c \in (IF st.sw = 1 THEN SweepCasesFor(st.a) ELSE CasesFor(st.a)) : st' = [ph |-> 1, c |-> c]
+        /\ \E c \in (IF st.sw > 0 THEN SweepCasesFor(st.a) ELSE CasesFor(st.a)) : st' = [ph |-> 1, c |-> c]
 Spec == Init /\ [][Next]_st
-Emit == (st'.ph = 1) => CSVWrite("%1$s", <<ToJson(st'.c)>>, OutFile)
+\* the (long) records of one sweep operand go to a file of their own: the successors of one state are written by
+\* one worker, and lines beyond 8 kB written by several workers to one file can interleave
+Emit == (st'.ph = 1) => CSVWrite("%1$s", <<ToJson(st'.c)>>, IF st.sw > 0 THEN OutFile \o "." \o ToString(st.sw) ELSE OutFile)
 
 -----------------------------------------------------------------------------
 \* Level I => Level A on every explored case
